@@ -383,6 +383,10 @@ func Accept4(fd int, flags int) (int, unix.Sockaddr, error) {
 	nfd := k.install(nf, OwnFramework)
 	k.use("accept", fd, fmt.Sprintf("fd=%d", nfd))
 	k.Stats["accepted"]++
+	k.AcceptLog = append(k.AcceptLog, s.ID)
+	if k.OnAccept != nil {
+		k.OnAccept(s.ID)
+	}
 	return nfd, s.Remote, nil
 }
 
